@@ -43,6 +43,24 @@ func runSolver(s solverSpec, input string, hard time.Duration) (string, error) {
 // solveBatch discharges all obligations of one function context in a single
 // incremental z3 session; the rest go to the per-obligation solver race.
 func solveBatch(c *FnCtx, obls []*Obligation, timeoutMs int) {
+	// vacuity probes (canary / cover) only need "not provable": give them a short budget of their own
+	var probes, real []*Obligation
+	for _, o := range obls {
+		if o.Kind == "canary" || o.Kind == "cover" {
+			probes = append(probes, o)
+		} else {
+			real = append(real, o)
+		}
+	}
+	if len(probes) > 0 && len(real) > 0 {
+		solveBatch1(c, probes, 700)
+		solveBatch1(c, real, timeoutMs)
+		return
+	}
+	solveBatch1(c, obls, timeoutMs)
+}
+
+func solveBatch1(c *FnCtx, obls []*Obligation, timeoutMs int) {
 	var todo []*Obligation
 	for _, o := range obls {
 		if o.Trivial {
@@ -191,6 +209,54 @@ func solveOne(c *FnCtx, o *Obligation, timeoutMs int) {
 			return
 		}
 	}
+	// second attempt: `ix` is exactly `+` (it exists only to give quantifier patterns a handle);
+	// with it inlined the query is equivalent and usually quantifier-free enough for a model
+	if strings.Contains(query, "(ix ") {
+		q2 := inlineIx(query)
+		for _, sp := range []solverSpec{sps[1], sps[0]} {
+			start := time.Now()
+			out, _ := runSolver(sp, q2, time.Duration(timeoutMs+3000)*time.Millisecond)
+			switch firstLine(out) {
+			case "unsat":
+				o.Status, o.Solver, o.Ms = "unsat", sp.name+"/ix-inlined", time.Since(start).Milliseconds()
+				return
+			case "sat":
+				o.Status, o.Solver, o.Ms = "sat", sp.name+"/ix-inlined", time.Since(start).Milliseconds()
+				var names, terms []string
+				for n, tm := range o.Vars {
+					names = append(names, n)
+					terms = append(terms, tm)
+				}
+				gv := ""
+				if len(terms) > 0 {
+					gv = "(get-value (" + strings.Join(terms, " ") + "))\n"
+				}
+				out2, _ := runSolver(sp, inlineIx(c.queryWith(o, terms))+gv, time.Duration(timeoutMs+3000)*time.Millisecond)
+				o.Model = out2
+				o.Values = parseValues(out2, names, terms)
+				return
+			}
+		}
+	}
+	// third attempt, only to obtain a *candidate* counterexample for replay: drop the quantified
+	// assumptions (weaker path condition). The obligation stays "unknown"; the candidate is
+	// believed only if it reproduces on the real code.
+	{
+		q3 := stripAssumedForalls(inlineIx(query))
+		var names, terms []string
+		for n, tm := range o.Vars {
+			names = append(names, n)
+			terms = append(terms, tm)
+		}
+		if len(terms) > 0 {
+			q3 = stripAssumedForalls(inlineIx(c.queryWith(o, terms))) + "(get-value (" + strings.Join(terms, " ") + "))\n"
+		}
+		out, _ := runSolver(sps[1], q3, time.Duration(timeoutMs+3000)*time.Millisecond)
+		if firstLine(out) == "sat" {
+			o.Values = parseValues(out, names, terms)
+			o.Candidate = true
+		}
+	}
 	o.Status = "unknown"
 	var sb strings.Builder
 	for _, r := range got {
@@ -259,4 +325,62 @@ func parseValues(out string, names, terms []string) map[string]string {
 		res[names[k]] = v
 	}
 	return res
+}
+
+
+func inlineIx(q string) string {
+	var b strings.Builder
+	for _, l := range strings.Split(q, "\n") {
+		if strings.HasPrefix(l, "(declare-fun ix ") || (strings.HasPrefix(l, "(assert (forall ((a Int) (b Int))") && strings.Contains(l, "(ix a b)")) {
+			continue
+		}
+		b.WriteString(strings.ReplaceAll(l, "(ix ", "(+ "))
+		b.WriteByte('\n')
+	}
+	return b.String()
+}
+
+
+// stripAssumedForalls replaces (forall ...) subterms inside the path-condition definitions
+// (define-fun |R...|) by true.
+func stripAssumedForalls(q string) string {
+	var b strings.Builder
+	for _, l := range strings.Split(q, "\n") {
+		if strings.HasPrefix(l, "(define-fun |R") && strings.Contains(l, "(forall ") {
+			l = dropForalls(l)
+		}
+		b.WriteString(l)
+		b.WriteByte('\n')
+	}
+	return b.String()
+}
+
+func dropForalls(l string) string {
+	for {
+		i := strings.Index(l, "(forall ")
+		if i < 0 {
+			return l
+		}
+		depth := 0
+		inq := false
+		j := i
+		for ; j < len(l); j++ {
+			switch l[j] {
+			case '|':
+				inq = !inq
+			case '(':
+				if !inq {
+					depth++
+				}
+			case ')':
+				if !inq {
+					depth--
+				}
+			}
+			if depth == 0 && j > i {
+				break
+			}
+		}
+		l = l[:i] + "true" + l[j+1:]
+	}
 }
